@@ -56,7 +56,8 @@ Print Assumptions C02_step_mkdir.
 Theorem C02_step_rmdir : forall C w k r p w', RSync C w k r -> npath p -> p <> c_root C ->
   apply_op w (Rmdir p) = Some w' ->
   let k1 := kernel_op k (w_fs w) (Rmdir p) in
-  exists r' k' evs, read_batch C (w_fs w') (r, drainq k1, []) (k_queue k1) = Done (r', k', evs) /\ RSync C w' k' r'.
+  exists r' k' evs, read_batch C (w_fs w') (r, drainq k1, []) (k_queue k1) = Done (r', k', evs) /\ RSync C w' k' r' /\
+    Forall (rsafe C) evs.          (* no raw event announces the end of the root: the pipeline stays alive *)
 Proof. exact step_rmdir. Qed.
 Print Assumptions C02_step_rmdir.
 
@@ -91,7 +92,8 @@ Theorem C02_step_rename_dir_over : forall C w k r p q w' ep v, RSync C w k r -> 
   flookup p (w_fs w) = Some ep -> f_dir ep = true -> scope C p -> p <> c_root C -> scope C q -> q <> c_root C ->
   flookup q (w_fs w) = Some v -> f_dir v = true ->
   let k1 := kernel_op k (w_fs w) (Rename p q) in
-  exists r' k' evs, read_batch C (w_fs w') (r, drainq k1, []) (k_queue k1) = Done (r', k', evs) /\ RSync C w' k' r'.
+  exists r' k' evs, read_batch C (w_fs w') (r, drainq k1, []) (k_queue k1) = Done (r', k', evs) /\ RSync C w' k' r' /\
+    Forall (rsafe C) evs.
 Proof. exact step_rename_dir_over. Qed.
 Print Assumptions C02_step_rename_dir_over.
 
@@ -149,8 +151,9 @@ Print Assumptions C02_rekey_loop.
 Theorem C02_cover_step : forall C, c_faults C = [] -> forall w k r o w', mask_ok C -> RSync C w k r ->
   covered_op C w o -> apply_op w o = Some w' ->
   let k1 := kernel_op k (w_fs w) o in
-  exists r' k' evs, read_batch C (w_fs w') (r, drainq k1, []) (k_queue k1) = Done (r', k', evs) /\ RSync C w' k' r'.
-Proof. exact cover_step. Qed.
+  exists r' k' evs, read_batch C (w_fs w') (r, drainq k1, []) (k_queue k1) = Done (r', k', evs) /\ RSync C w' k' r' /\
+    Forall (rsafe C) evs.
+Proof. exact cover_step_safe. Qed.
 Print Assumptions C02_cover_step.
 
 (* the same on the pipeline: [AOp o; ARead (whole queue)] from a state whose reader-side buffer is idle *)
